@@ -1,15 +1,3 @@
-Stake/ApdDec.vo Stake/ApdDec.glob Stake/ApdDec.v.beautified Stake/ApdDec.required_vo: Stake/ApdDec.v Base/Outcome.vo
-Stake/ApdDec.vio: Stake/ApdDec.v Base/Outcome.vio
-Stake/ApdDec.vos Stake/ApdDec.vok Stake/ApdDec.required_vos: Stake/ApdDec.v Base/Outcome.vos
-Stake/ShareClass.vo Stake/ShareClass.glob Stake/ShareClass.v.beautified Stake/ShareClass.required_vo: Stake/ShareClass.v Base/Outcome.vo Stake/ApdDec.vo
-Stake/ShareClass.vio: Stake/ShareClass.v Base/Outcome.vio Stake/ApdDec.vio
-Stake/ShareClass.vos Stake/ShareClass.vok Stake/ShareClass.required_vos: Stake/ShareClass.v Base/Outcome.vos Stake/ApdDec.vos
-Stake/ShareClassProofs.vo Stake/ShareClassProofs.glob Stake/ShareClassProofs.v.beautified Stake/ShareClassProofs.required_vo: Stake/ShareClassProofs.v Base/Outcome.vo Stake/ApdDec.vo Stake/ShareClass.vo
-Stake/ShareClassProofs.vio: Stake/ShareClassProofs.v Base/Outcome.vio Stake/ApdDec.vio Stake/ShareClass.vio
-Stake/ShareClassProofs.vos Stake/ShareClassProofs.vok Stake/ShareClassProofs.required_vos: Stake/ShareClassProofs.v Base/Outcome.vos Stake/ApdDec.vos Stake/ShareClass.vos
 Stake/C10Check.vo Stake/C10Check.glob Stake/C10Check.v.beautified Stake/C10Check.required_vo: Stake/C10Check.v Base/Outcome.vo Base/Check.vo Stake/ApdDec.vo Stake/ShareClass.vo
 Stake/C10Check.vio: Stake/C10Check.v Base/Outcome.vio Base/Check.vio Stake/ApdDec.vio Stake/ShareClass.vio
 Stake/C10Check.vos Stake/C10Check.vok Stake/C10Check.required_vos: Stake/C10Check.v Base/Outcome.vos Base/Check.vos Stake/ApdDec.vos Stake/ShareClass.vos
-Props/C10.vo Props/C10.glob Props/C10.v.beautified Props/C10.required_vo: Props/C10.v Base/Outcome.vo Stake/ApdDec.vo Stake/ShareClass.vo Stake/ShareClassProofs.vo
-Props/C10.vio: Props/C10.v Base/Outcome.vio Stake/ApdDec.vio Stake/ShareClass.vio Stake/ShareClassProofs.vio
-Props/C10.vos Props/C10.vok Props/C10.required_vos: Props/C10.v Base/Outcome.vos Stake/ApdDec.vos Stake/ShareClass.vos Stake/ShareClassProofs.vos
